@@ -40,6 +40,7 @@ func To(errBuf *strings.Builder, validName, objName, fieldName string, tv reflec
 		}
 		// 生成如: "TestOrder.AppName" input "xxx", Explain: it is less than 2 length
 		errBuf.WriteString(GetJoinValidErrStr(objName, fieldName, valStr, ExplainEn, "it is less than", ToStr(min), unitStr))
+		return // 一个验证规则只产生一条错误(min > max 时两边都不满足)
 	}
 
 	if isMoreThan {
@@ -108,6 +109,7 @@ func OTo(errBuf *strings.Builder, validName, objName, fieldName string, tv refle
 		}
 		// 生成如: "TestOrder.AppName" input "xxx", Explain: it is less than 2 length
 		errBuf.WriteString(GetJoinValidErrStr(objName, fieldName, valStr, ExplainEn, "it is less than or equal", ToStr(min), unitStr))
+		return // 一个验证规则只产生一条错误(min >= max 时两边都不满足)
 	}
 
 	if isMoreThan {
